@@ -11,7 +11,7 @@ RULE = ('Cases = request type (worker, persistent worker, context create, contex
         'cut at an enumerated offset with FIN or RST, or sent completely followed by a faulty control-channel handshake step '
         '(never connects, connects and closes, closes after the runtime info, vanishes while the worker runs) x optionally a '
         'healthy client with a running worker x sequences of 1-3 faulty clients x schedule.')
-ASSUMPTIONS = ['after each faulty client the server must be alive and serve a fresh RemoteWorker round trip within 120 simulated s']
+ASSUMPTIONS = ['after each faulty client the server must be alive and serve a fresh RemoteWorker round trip and a fresh request of the faulty client\'s kind (same context) within 120 simulated s each']
 
 REQS = ['worker', 'pworker', 'ctx-create', 'ctx-delete', 'worker-in-ctx']
 STEPS = ['never-ctrl', 'ctrl-connect-close', 'ctrl-connect-reset', 'close-after-info', 'vanish-running']
@@ -177,6 +177,12 @@ class Run:
                 fr = bl[0]['frames'][0].split(':')[0] if bl and bl[0]['frames'] else '?'
                 self.viol('serves-new-clients', f'fresh-client-not-served:{r[0]}:server-main-blocked@{fr}',
                           {'tag': tag, 'result': lib.safe_repr(r[1]), 'server_main': bl[:1]})
+                return
+            # ... and a new well-behaved client of the very kind the faulty one was (same context for workers in a context)
+            r = lib.call_with_deadline(self.healthy, 120.0, f['req'], addr, ctxs)
+            if r[0] != 'ok' or not r[1][0]:
+                self.viol('serves-new-clients', f'fresh-{f["req"]}-client-not-served:{r[0]}',
+                          {'tag': tag, 'result': lib.safe_repr(r[1]), 'blocked': s.blocked_report()[:4] if r[0] == 'hung' else None})
                 return
         if conc is not None:
             r = lib.call_with_deadline(conc.wait, 300.0, timeout=60)
